@@ -664,6 +664,11 @@ class SInterp(object):
         if isinstance(o, Sym):
             return Sym('attr', o, attr)
         if isinstance(o, TypeV):
+            h = getattr(o, 'getattr', None)
+            if h is not None:
+                r = h(self, o, attr)
+                if r is not KeyError:
+                    return r
             return Sym('attr', Sym('tok', o.name), attr)
         if isinstance(o, (Fn, Bound)):
             if attr == '__name__':
@@ -973,7 +978,10 @@ class SInterp(object):
 
     def pymethod(self, o, attr, args, kwargs):
         if isinstance(o, str) and attr == 'format':
-            return o
+            try:
+                return o.format(*[render(a) if has_abstract(a) else a for a in args], **dict((k, render(v) if has_abstract(v) else v) for k, v in kwargs.items()))
+            except Exception:
+                return o
         if isinstance(o, str) and attr == 'join':
             vals = self.iterate(args[0])
             if any(not isinstance(x, str) for x in vals):
@@ -1110,6 +1118,12 @@ class SInterp(object):
             if n == 'print':
                 return None
             if n == 'super':
+                # super(Class, obj) of a list- / dict-backed abstract object: the plain container methods
+                if len(args) == 2 and isinstance(args[1], Obj) and ('_list' in args[1].attrs or '_dict' in args[1].attrs):
+                    box = args[1].attrs.get('_list') if '_list' in args[1].attrs else args[1].attrs['_dict']
+                    proxy = Obj('super(%s)' % args[1].name)
+                    proxy.hooks['getattr'] = lambda itp, o, attr, box=box: ('pymethod', box, attr) if hasattr(box, attr) else KeyError
+                    return proxy
                 raise Undecided('super()')
             if n == 'vars' or n == 'locals' or n == 'globals':
                 raise Undecided(n)
